@@ -1,0 +1,17 @@
+//! Read-only accessors used by external verification tooling.
+//!
+//! Compiled only with the `verif-hooks` feature; adds no behaviour.
+
+use poulpy_hal::layouts::VecZnx;
+
+use crate::blind_rotation::{LookupTable, LookupTableFactory};
+
+/// The polynomials of a lookup table (one per extension slot) and its drift.
+pub fn lookup_table_parts(lut: &LookupTable) -> (&[VecZnx<Vec<u8>>], usize) {
+    (&lut.data, lut.drift)
+}
+
+/// Rotates a lookup table in the clear (the crate-private `LookupTable::rotate`).
+pub fn lookup_table_rotate<M: LookupTableFactory>(module: &M, lut: &mut LookupTable, k: i64) {
+    lut.rotate(module, k);
+}
